@@ -92,7 +92,21 @@ end
 
 -- Tries to look up a module loaded by require() from the cache.  This is
 -- also called from _lua_invoke().
+-- Host libraries that stay in package.loaded (they are needed outside the
+-- sandbox) but must never be handed to sandboxed code by require().
+local _host_only_modules = {
+    io = true,
+    os = true,
+    package = true,
+    python = true,
+    debug = true,
+    _G = true,
+}
+
 function _cached_mod(modname)
+    if _host_only_modules[modname] then
+        return nil
+    end
     if _orig_package.loaded[modname] then
         return _orig_package.loaded[modname]
     end
